@@ -392,7 +392,9 @@ func (c *leafCore) exec(arg Obs) (any, error, error) {
 		ev["err"] = t
 		s.log(ev)
 		// a failing attempt also hands back a partial value (io.Reader style): it must never reach post
-		return s.reg.Payload(junkBase + t), nil, s.reg.Err(t)
+		junk := &payloadPtr{Tok: junkBase + t}
+		s.reg.SetPayload(junkBase+t, junk)
+		return junk, nil, s.reg.Err(t)
 	}
 }
 
